@@ -100,7 +100,6 @@ func TestVerifC03SpeedtestServer(t *testing.T) {
 	r := vfC03New(k)
 	defer r.Close()
 	const entry = "speedtest:server"
-	const entryPipe = "speedtest:NewServerConn"
 	r.Entry(entry, func(b []byte) {
 		for _, mode := range []int{0, 1 + len(b)%3} {
 			c := vfC03NewSConn(b, mode, io.EOF, vfC03PeerBudget)
@@ -115,6 +114,68 @@ func TestVerifC03SpeedtestServer(t *testing.T) {
 			}
 		}
 	})
+	if r.Replay() {
+		return
+	}
+	n := 0
+	emit := func(b []byte) {
+		r.Do(entry, b)
+		if n++; n%500 == 0 {
+			vfC03ServerCanary(r, entry, n/500)
+		}
+	}
+	vfC03ServerRequests(k, "gen", emit)
+	vfC03ServerCanary(r, entry, 0)
+	k.Sample(map[string]any{"entry": entry, "inputs": k.Counter("ev_inputs"), "bytes_served": k.Counter("bytes_served")})
+}
+
+// vfC03ServerRequests: the request workload shared by spd-server and spd-pipe.
+func vfC03ServerRequests(k *vfKit, rngName string, emit func([]byte)) {
+	rng := k.Rand(rngName)
+	sizes := []uint32{0, 1, 2, 255, 65535, 65536, 65537, 131072, 1<<18 - 5, 1<<18 - 4, 1 << 18, 1<<31 - 1, 1 << 31, 1<<32 - 1}
+	// (a) all lengths 0..64 of structured prefixes
+	var heads [][]byte
+	for _, typ := range []byte{0, typeDownload, typeUpload, 3, 0x7f, 0xff} {
+		heads = append(heads, []byte{typ})
+		for _, s := range []uint32{0, 1, 10, 59, 60, 61, 65536, 1<<32 - 1} {
+			heads = append(heads, vfC03Req(typ, s, nil))
+		}
+	}
+	vfC03Prefixes(rng, heads, 64, emit)
+	// (b) every size for both request types, truncated at every offset; upload bodies of length l-1, l, l+1, l/2
+	for _, typ := range []byte{typeDownload, typeUpload} {
+		for _, s := range sizes {
+			req := vfC03Req(typ, s, nil)
+			for cut := 0; cut <= len(req); cut++ {
+				emit(req[:cut])
+			}
+			if typ == typeUpload && s <= 131072 {
+				for _, bl := range []int64{int64(s) - 1, int64(s), int64(s) + 1, int64(s) / 2} {
+					if bl >= 0 {
+						emit(vfC03Req(typ, s, make([]byte, bl)))
+					}
+				}
+			}
+			if typ == typeUpload && s > 131072 {
+				emit(vfC03Req(typ, s, make([]byte, 100000)))
+			}
+		}
+	}
+	vfC03Mutations(rng, vfC03Req(typeUpload, 300, vfC03Fill(rng, 2, 300)), []vfC03Field{{0, 1, "u8"}, {1, 4, "be32"}}, vfC03LenValues(300, 65536, 1<<18), k.N(200, 4000), emit)
+	vfC03Mutations(rng, vfC03Req(typeDownload, 300, nil), []vfC03Field{{0, 1, "u8"}, {1, 4, "be32"}}, vfC03LenValues(300, 65536, 1<<18), k.N(200, 4000), emit)
+	// (c) random bytes
+	vfC03Random(rng, k.N(2000, 50000), 2000, emit)
+}
+
+// TestVerifC03SpeedtestPipe: a sample of the same requests through the public constructor — the
+// handler runs in its own goroutine behind a net.Pipe, so a panic there is process-fatal; the
+// request is in inputs-spd-pipe.log before it is written.
+func TestVerifC03SpeedtestPipe(t *testing.T) {
+	k := vfNewKit(t, "C03", "spd-pipe")
+	defer k.Finish()
+	r := vfC03New(k)
+	defer r.Close()
+	const entryPipe = "speedtest:NewServerConn"
 	// through the public constructor: the handler runs in its own goroutine behind a net.Pipe
 	r.Entry(entryPipe, func(b []byte) {
 		c := NewServerConn()
@@ -143,54 +204,29 @@ func TestVerifC03SpeedtestServer(t *testing.T) {
 	if r.Replay() {
 		return
 	}
-	rng := k.Rand("gen")
 	n := 0
-	pipeEvery := k.N(40, 10)
-	emit := func(b []byte) {
-		r.Do(entry, b)
-		n++
-		if n%pipeEvery == 0 {
-			r.Do(entryPipe, b)
+	every := k.N(20, 5)
+	vfC03ServerRequests(k, "gen", func(b []byte) {
+		if n++; n%every != 0 {
+			return
 		}
-		if n%500 == 0 {
-			vfC03ServerCanary(r, entry, n/500)
+		r.Do(entryPipe, b)
+		if n%(every*50) != 0 {
+			return
 		}
-	}
-	sizes := []uint32{0, 1, 2, 255, 65535, 65536, 65537, 131072, 1<<18 - 5, 1<<18 - 4, 1 << 18, 1<<31 - 1, 1 << 31, 1<<32 - 1}
-	// (a) all lengths 0..64 of structured prefixes
-	var heads [][]byte
-	for _, typ := range []byte{0, typeDownload, typeUpload, 3, 0x7f, 0xff} {
-		heads = append(heads, []byte{typ})
-		for _, s := range []uint32{0, 1, 10, 59, 60, 61, 65536, 1<<32 - 1} {
-			heads = append(heads, vfC03Req(typ, s, nil))
-		}
-	}
-	vfC03Prefixes(rng, heads, 64, emit)
-	// (b) every size for both request types, truncated at every offset; upload bodies of length l-1, l, l+1, 0
-	for _, typ := range []byte{typeDownload, typeUpload} {
-		for _, s := range sizes {
-			req := vfC03Req(typ, s, nil)
-			for cut := 0; cut <= len(req); cut++ {
-				emit(req[:cut])
+		// service continues: a fresh pseudo connection serves a well-formed download completely
+		r.Canary(entryPipe, "", "download of 5000 bytes", func() error {
+			c := NewServerConn()
+			defer c.Close()
+			go func() { _, _ = c.Write(vfC03Req(typeDownload, 5000, nil)) }()
+			got, err := io.ReadAll(c)
+			if err != nil || len(got) != 5+5000 || !bytes.Equal(got[:5], []byte{0, 0, 2, 'O', 'K'}) {
+				return fmt.Errorf("got %d bytes (err=%v), want 5005 starting 00 00 02 4f 4b", len(got), err)
 			}
-			if typ == typeUpload && s <= 131072 {
-				for _, bl := range []int64{int64(s) - 1, int64(s), int64(s) + 1, int64(s) / 2} {
-					if bl >= 0 {
-						emit(vfC03Req(typ, s, make([]byte, bl)))
-					}
-				}
-			}
-			if typ == typeUpload && s > 131072 {
-				emit(vfC03Req(typ, s, make([]byte, 100000)))
-			}
-		}
-	}
-	vfC03Mutations(rng, vfC03Req(typeUpload, 300, vfC03Fill(rng, 2, 300)), []vfC03Field{{0, 1, "u8"}, {1, 4, "be32"}}, vfC03LenValues(300, 65536, 1<<18), k.N(200, 4000), emit)
-	vfC03Mutations(rng, vfC03Req(typeDownload, 300, nil), []vfC03Field{{0, 1, "u8"}, {1, 4, "be32"}}, vfC03LenValues(300, 65536, 1<<18), k.N(200, 4000), emit)
-	// (c) random bytes
-	vfC03Random(rng, k.N(2000, 50000), 2000, emit)
-	vfC03ServerCanary(r, entry, 0)
-	k.Sample(map[string]any{"entries": []string{entry, entryPipe}, "inputs": k.Counter("ev_inputs"), "bytes_served": k.Counter("bytes_served")})
+			return nil
+		})
+	})
+	k.Sample(map[string]any{"entry": entryPipe, "inputs": k.Counter("ev_inputs"), "bytes_served": k.Counter("bytes_served")})
 }
 
 func vfC03Resp(status byte, msgLen uint16, msg []byte, rest []byte) []byte {
